@@ -32,7 +32,9 @@ def mk_pot(spec):
 def mk_clo(spec):
     kind, hc = spec
     C = pyPRISM.closure
-    cls = {'py': C.PercusYevick, 'hnc': C.HyperNettedChain, 'msa': C.MeanSphericalApproximation, 'ms': C.MartynovSarkisov}[kind]
+    # the class under its full name or under the short alias the package exports (pyPRISM.closure.PY, HNC, MSA, MS), alternating
+    full = {'py': 'PercusYevick', 'hnc': 'HyperNettedChain', 'msa': 'MeanSphericalApproximation', 'ms': 'MartynovSarkisov'}[kind]
+    cls = getattr(C, full if (_FLAG[0] // 2) % 2 else kind.upper())
     # the flag as user code produces it: a Python bool, or the numpy.bool_ that a comparison / np.any / np.all returns (alternating, deterministic)
     _FLAG[0] += 1
     return cls(apply_hard_core=(bool(hc) if _FLAG[0] % 2 else np.bool_(bool(hc))))
@@ -52,6 +54,12 @@ def mk_om(spec, kgrid=None):
 def pairs_of(n):
     return [(i, j) for i in range(n) for j in range(i, n)]
 
+def mk_domain(sd):
+    """the Domain of a description: from dr, or the same grid configured through dk"""
+    if sd.get('dom_from_dk'):
+        return pyPRISM.Domain(length=sd['dom'][0], dk=math.pi / (sd['dom'][1] * sd['dom'][0]))
+    return pyPRISM.Domain(length=sd['dom'][0], dr=sd['dom'][1])
+
 def build_system(sd, types=None):
     n = sd['n']; types = list(types) if types is not None else TYPES[:n]
     if sd.get('kT_assign'):
@@ -64,7 +72,8 @@ def build_system(sd, types=None):
         else:
             s.domain = pyPRISM.Domain(length=sd['dom'][0], dr=sd['dom'][1])
     grp = [t for t, v in enumerate(sd['dens']) if v is not None and v == sd['dens'][0]] if sd.get('dens_group') else []
-    for t, v in enumerate(sd['dens']):
+    for t in (sd.get('dens_order') or range(n)):
+        v = sd['dens'][t]
         if v is not None and t not in grp[1:]: s.density[types[t]] = v
     if len(grp) >= 2: s.density[[types[t] for t in grp]] = sd['dens'][0]          # several types in ONE statement, as the last density assignment
     order = sd.get('diam_order') or list(range(n))
@@ -99,11 +108,20 @@ def build_system(sd, types=None):
                 if sp is not None: table[types[i], types[j]] = mk(sp)
     return s
 
+def eff_dr(sd):
+    """the real-space spacing the Domain of this description actually has: a Domain configured through dk derives dr = pi/(dk N),
+    which can differ from the nominal dr by an ulp (and then so does every grid point)"""
+    L, dr = sd['dom'][0], sd['dom'][1]
+    if sd.get('dom_from_dk'):
+        dk = math.pi / (dr * L)
+        return float(np.pi / (dk * L))
+    return dr
+
 # ----------------------------------------------------------------- the same description for the model
 def sys_lines(sd):
     n = sd['n']
     out = ['sys.new %d %s' % (n, f2h(sd['kT']))]
-    out.append('sys.dom none' if sd.get('dom') is None else 'sys.dom %d %s' % (sd['dom'][0], f2h(sd['dom'][1])))
+    out.append('sys.dom none' if sd.get('dom') is None else 'sys.dom %d %s' % (sd['dom'][0], f2h(eff_dr(sd))))
     for t, v in enumerate(sd['dens']):
         if v is not None: out.append('sys.dens %s %d' % (f2h(v), t))
     for t, v in enumerate(sd['diam']):
@@ -271,8 +289,9 @@ def gen_system(rng, maxn=3, maxL=32, soft_ok=True, distinct=True):
         sd['pairs']['%d%d' % (i, j)] = {'pot': pot, 'clo': gen_clo(rng, pot[0]),
                                         'om': gen_om_diag(rng, L) if i == j else gen_om_off(rng, L)}
     if n >= 2 and rng.random() < 0.2:
-        t = rng.randrange(n); sd['dens'][t] = float('%.5g' % (sd['dens'][t] * rng.choice([1e-5, 1e-6, 1e-8])))      # one dilute component (a tracer / dilute nanocomposite)
+        t = rng.randrange(n); sd['dens'][t] = float('%.5g' % (sd['dens'][t] * rng.choice([1e-5, 3e-6])))      # one dilute component (a tracer / dilute nanocomposite); far smaller densities amplify rounding like eps/rho in h of that pair
     if rng.random() < 0.3: sd['kT_assign'] = rng.choice([1.0, 0.5, 3.0, sd['kT'] * 2])
+    if rng.random() < 0.25: sd['dom_from_dk'] = True          # the same grid configured through dk
     if n >= 2 and rng.random() < 0.4:
         sd['diam_order'] = rng.sample(range(n), n) + ([0] if rng.random() < 0.5 else [])
     if n >= 2 and rng.random() < 0.25:
